@@ -252,9 +252,12 @@ def check_history(ctx, ops):
                     name_lists[len(model.hooks)] = arg
                 else:
                     arg = names[0]
-                mgr = install_import_hook(arg, cstr)
-                if style == "with":
-                    mgr.__enter__()
+                try:
+                    mgr = install_import_hook(arg, cstr)
+                    if style == "with":
+                        mgr.__enter__()
+                except Exception as e:  # noqa: BLE001  (installing a hook is valid whatever is installed already, under any warnings configuration)
+                    raise Violation("operation-raised", {"ops": ops}, f"op #{i} install_import_hook({arg!r}, {cstr!r}) raised {type(e).__name__}: {e}; hooks={model.hooks}; history={ops[:i + 1]}")
                 hid = len(model.hooks)
                 managers[hid] = (mgr, style)
                 model.hooks.append({"names": list(names), "checker": checker, "active": True})
@@ -264,12 +267,15 @@ def check_history(ctx, ops):
                     continue
                 hid = act[op[1] % len(act)]
                 mgr, style = managers[hid]
-                if style == "with":
-                    mgr.__exit__(None, None, None)
-                else:
-                    mgr.uninstall()
-                    if op[1] % 2:
-                        mgr.uninstall()  # idempotent
+                try:
+                    if style == "with":
+                        mgr.__exit__(None, None, None)
+                    else:
+                        mgr.uninstall()
+                        if op[1] % 2:
+                            mgr.uninstall()  # idempotent
+                except Exception as e:  # noqa: BLE001
+                    raise Violation("operation-raised", {"ops": ops}, f"op #{i} uninstalling hook {model.hooks[hid]} raised {type(e).__name__}: {e}; history={ops[:i + 1]}")
                 model.hooks[hid]["active"] = False
                 model.uninstalled_once = True
                 # the program drops its handle; whatever the hook owned may be collected now
@@ -361,6 +367,8 @@ def check_history(ctx, ops):
                     raised = None
                 except RuntimeError as e:
                     raised = e
+                except Exception as e:  # noqa: BLE001
+                    raise Violation("operation-raised", {"ops": ops}, f"op #{i} pytest --jaxtyping-packages={value!r} raised {type(e).__name__}: {e}; hooks={model.hooks}; history={ops[:i + 1]}")
                 if already:
                     if raised is None:
                         raise Violation("pytest-option", {"ops": ops}, f"--jaxtyping-packages={value!r} with {already} already imported did not raise RuntimeError")
